@@ -48,7 +48,23 @@ static coap_response_t on_rsp(coap_session_t *s, const coap_pdu_t *sent, const c
   return sim_on_response(s, sent, rcvd, mid);
 }
 
+/* A received datagram shorter than 256 bytes is parsed into a 256-byte PDU buffer: a read behind the message would land in the
+ * unused rest of that buffer and go unnoticed.  The dispatch hook (COAP_VERIF_HOOKS) makes that rest inaccessible for ASan;
+ * free() and a later realloc of the buffer reset the poisoning. */
+#include <sanitizer/asan_interface.h>
+#include <malloc.h>
+extern int (*coap_verif_dispatch_hook)(coap_session_t *session, coap_pdu_t *pdu);
+static int poison_slack(coap_session_t *session, coap_pdu_t *pdu) {
+  (void)session;
+  /* coap_pdu_parse() sets alloc_size = used_size without shrinking the buffer: ask the allocator for the real size */
+  size_t real = malloc_usable_size(pdu->token - pdu->max_hdr_size);
+  if (real > (size_t)pdu->max_hdr_size + pdu->used_size)
+    ASAN_POISON_MEMORY_REGION(pdu->token + pdu->used_size, real - pdu->max_hdr_size - pdu->used_size);
+  return 0;
+}
+
 static void h_init(void) {
+  coap_verif_dispatch_hook = poison_slack;
   sim_global_init();
   coap_set_log_handler(null_log);
   coap_set_show_pdu_output(0);
